@@ -19,13 +19,32 @@ use grin_core::core::{
 use grin_core::global;
 use grin_core::libtx;
 use grin_core::pow;
-use grin_pool::types::{BlockChain, NoopPoolAdapter, PoolConfig, PoolError, TxSource};
+use grin_pool::types::{BlockChain, PoolAdapter, PoolConfig, PoolEntry, PoolError, TxSource};
 use grin_pool::TransactionPool;
 use serde_derive::{Deserialize, Serialize};
 use serde_json::{json, Value};
 use std::collections::{BTreeMap, BTreeSet};
 use std::sync::Arc;
 use std::time::Instant;
+
+/// Simulated relay: the stem relay of the next stem submission fails when the simulator says so
+/// (no Dandelion relay peer available), which makes add_to_pool fall back to fluffing.
+pub struct SimRelay {
+	pub fail_next_stem: std::sync::atomic::AtomicBool,
+	pub stem_relay_failed: std::sync::atomic::AtomicU64,
+}
+
+impl PoolAdapter for SimRelay {
+	fn tx_accepted(&self, _entry: &PoolEntry) {}
+	fn stem_tx_accepted(&self, _entry: &PoolEntry) -> Result<(), PoolError> {
+		if self.fail_next_stem.swap(false, std::sync::atomic::Ordering::SeqCst) {
+			self.stem_relay_failed.fetch_add(1, std::sync::atomic::Ordering::SeqCst);
+			Err(PoolError::DandelionError)
+		} else {
+			Ok(())
+		}
+	}
+}
 
 #[derive(Clone)]
 pub struct PoolChain {
@@ -139,7 +158,8 @@ pub struct PoolSim<'w> {
 	world: &'w mut World,
 	chain: Arc<Chain>,
 	adapter: Arc<RecAdapter>,
-	pool: TransactionPool<PoolChain, NoopPoolAdapter>,
+	pool: TransactionPool<PoolChain, SimRelay>,
+	relay: Arc<SimRelay>,
 	dir: std::path::PathBuf,
 	/// world block id of the node's head
 	head: usize,
@@ -184,6 +204,10 @@ impl<'w> PoolSim<'w> {
 				.map_err(|e| format!("base block #{}: {:?}", id, e))?;
 		}
 		adapter.events.lock().unwrap().clear();
+		let relay = Arc::new(SimRelay {
+			fail_next_stem: std::sync::atomic::AtomicBool::new(false),
+			stem_relay_failed: std::sync::atomic::AtomicU64::new(0),
+		});
 		let pool = TransactionPool::new(
 			PoolConfig {
 				accept_fee_base: global::get_accept_fee_base(),
@@ -193,7 +217,7 @@ impl<'w> PoolSim<'w> {
 				mineable_max_weight: global::max_block_weight(),
 			},
 			Arc::new(PoolChain { chain: chain.clone() }),
-			Arc::new(NoopPoolAdapter {}),
+			relay.clone(),
 		);
 		let base_blocks = world.blocks.len();
 		Ok(PoolSim {
@@ -201,6 +225,7 @@ impl<'w> PoolSim<'w> {
 			chain,
 			adapter,
 			pool,
+			relay,
 			dir,
 			head: start,
 			base_blocks,
@@ -748,6 +773,10 @@ impl<'w> PoolSim<'w> {
 			None => return Ok("skipped".into()),
 		};
 		let stem = stem && *kind != Submit::AggregatedUnderFee && *kind != Submit::FluffStemmed;
+		if stem && rng.chance(1, 4) {
+			// no relay peer for this one: add_to_pool falls back to the txpool
+			self.relay.fail_next_stem.store(true, std::sync::atomic::Ordering::SeqCst);
+		}
 		let over_capacity = self.pool.txpool.size() >= self.pool.config.max_pool_size;
 		let res = self.pool.add_to_pool(TxSource::Broadcast, tx.clone(), stem, &header);
 		let cls = match &res {
@@ -757,6 +786,11 @@ impl<'w> PoolSim<'w> {
 				s.split(|c: char| c == '(' || c == ' ' || c == '{').next().unwrap_or("").to_string()
 			}
 		};
+		let relay_failed = self.relay.stem_relay_failed.swap(0, std::sync::atomic::Ordering::SeqCst) > 0;
+		self.relay.fail_next_stem.store(false, std::sync::atomic::Ordering::SeqCst);
+		if relay_failed {
+			self.probe("stem_relay_failed_fell_back_to_fluff");
+		}
 		if res.is_ok() {
 			self.accepted.push(tx);
 			self.probe(if stem { "stem_accepted" } else { "fluff_accepted" });
